@@ -399,10 +399,14 @@ class DisBench(object):
         new = dict(labels)
         if (self._nlab % 4 or getattr(self, 'force_inplace', False)) and isinstance(self.parser.labels, dict):
             cur = self.parser.labels
-            for k in [k for k in cur if k not in new]:
-                del cur[k]
-            for k, v in new.items():
-                cur[k] = v
+            if getattr(self, 'force_inplace', False):
+                cur.clear()                     # replays: same dict object, exactly the recorded order
+                cur.update(new)
+            else:
+                for k in [k for k in cur if k not in new]:
+                    del cur[k]
+                for k, v in new.items():
+                    cur[k] = v
         else:
             self.parser.labels = new
 
